@@ -182,7 +182,7 @@ func runThoroughMutants(res *Result, prop, repo, verif string) {
 	}
 	// behaviour-preserving edits: the check must stay silent on every one of them
 	var benign []*mutantRun
-	for _, dir := range []string{"benign", "benign2", "benign3", "benign4"} {
+	for _, dir := range []string{"benign", "benign2", "benign3", "benign4", "benign5"} {
 		files, _ := filepath.Glob(filepath.Join(verif, dir, "*", "*.diff"))
 		sort.Strings(files)
 		for _, f := range files {
